@@ -44,11 +44,11 @@ struct tuple_leaf {
 
     [[nodiscard]] constexpr auto get_impl(index_constant<I> /*ic*/) const& noexcept -> T const& { return _value; }
 
-    [[nodiscard]] constexpr auto get_impl(index_constant<I> /*ic*/) && noexcept -> T&& { return etl::move(_value); }
+    [[nodiscard]] constexpr auto get_impl(index_constant<I> /*ic*/) && noexcept -> T&& { return static_cast<T&&>(_value); }
 
     [[nodiscard]] constexpr auto get_impl(index_constant<I> /*ic*/) const&& noexcept -> T const&&
     {
-        return etl::move(_value);
+        return static_cast<T const&&>(_value);
     }
 
     constexpr auto swap_impl(index_constant<I> /*ic*/, T& other) noexcept(is_nothrow_swappable_v<T>) -> void
@@ -109,13 +109,13 @@ private:
     template <size_t I, typename T>
     friend struct tuple_element;
     template <size_t N, typename... Us>
-    friend constexpr auto get(tuple<Us...>& t) -> auto&; // NOLINT
+    friend constexpr auto get(tuple<Us...>& t) -> decltype(auto); // NOLINT
     template <size_t N, typename... Us>
-    friend constexpr auto get(tuple<Us...> const& t) -> auto const&; // NOLINT
+    friend constexpr auto get(tuple<Us...> const& t) -> decltype(auto); // NOLINT
     template <size_t N, typename... Us>
-    friend constexpr auto get(tuple<Us...>&& t) -> auto&&; // NOLINT
+    friend constexpr auto get(tuple<Us...>&& t) -> decltype(auto); // NOLINT
     template <size_t N, typename... Us>
-    friend constexpr auto get(tuple<Us...> const&& t) -> auto const&&; // NOLINT
+    friend constexpr auto get(tuple<Us...> const&& t) -> decltype(auto); // NOLINT
     template <typename T, typename... Us>
     friend constexpr auto get(tuple<Us...>& t) -> auto&; // NOLINT
     template <typename T, typename... Us>
@@ -129,25 +129,25 @@ private:
     TETL_NO_UNIQUE_ADDRESS impl_t _impl; // NOLINT(modernize-use-default-member-init)
 
     template <etl::size_t I>
-    [[nodiscard]] constexpr auto get_impl(etl::index_constant<I> ic) & noexcept -> auto&
+    [[nodiscard]] constexpr auto get_impl(etl::index_constant<I> ic) & noexcept -> decltype(auto)
     {
         return _impl.get_impl(ic);
     }
 
     template <etl::size_t I>
-    [[nodiscard]] constexpr auto get_impl(etl::index_constant<I> ic) const& noexcept -> auto const&
+    [[nodiscard]] constexpr auto get_impl(etl::index_constant<I> ic) const& noexcept -> decltype(auto)
     {
         return _impl.get_impl(ic);
     }
 
     template <etl::size_t I>
-    [[nodiscard]] constexpr auto get_impl(etl::index_constant<I> ic) && noexcept -> auto&&
+    [[nodiscard]] constexpr auto get_impl(etl::index_constant<I> ic) && noexcept -> decltype(auto)
     {
         return etl::move(_impl).get_impl(ic);
     }
 
     template <etl::size_t I>
-    [[nodiscard]] constexpr auto get_impl(etl::index_constant<I> ic) const&& noexcept -> auto const&&
+    [[nodiscard]] constexpr auto get_impl(etl::index_constant<I> ic) const&& noexcept -> decltype(auto)
     {
         return etl::move(_impl).get_impl(ic);
     }
@@ -193,28 +193,28 @@ template <typename... Ts>
 inline constexpr auto is_tuple_like<etl::tuple<Ts...>> = true;
 
 template <etl::size_t I, typename... Ts>
-[[nodiscard]] constexpr auto get(tuple<Ts...>& t) -> auto&
+[[nodiscard]] constexpr auto get(tuple<Ts...>& t) -> decltype(auto)
 {
     static_assert(I < sizeof...(Ts));
     return t.template get_impl<I>(etl::index_v<I>);
 }
 
 template <etl::size_t I, typename... Ts>
-[[nodiscard]] constexpr auto get(tuple<Ts...> const& t) -> auto const&
+[[nodiscard]] constexpr auto get(tuple<Ts...> const& t) -> decltype(auto)
 {
     static_assert(I < sizeof...(Ts));
     return t.template get_impl<I>(etl::index_v<I>);
 }
 
 template <etl::size_t I, typename... Ts>
-[[nodiscard]] constexpr auto get(tuple<Ts...>&& t) -> auto&&
+[[nodiscard]] constexpr auto get(tuple<Ts...>&& t) -> decltype(auto)
 {
     static_assert(I < sizeof...(Ts));
     return etl::move(t).template get_impl<I>(etl::index_v<I>);
 }
 
 template <etl::size_t I, typename... Ts>
-[[nodiscard]] constexpr auto get(tuple<Ts...> const&& t) -> auto const&&
+[[nodiscard]] constexpr auto get(tuple<Ts...> const&& t) -> decltype(auto)
 {
     static_assert(I < sizeof...(Ts));
     return etl::move(t).template get_impl<I>(etl::index_v<I>);
